@@ -10,6 +10,9 @@ modules and submodules, targets of every kind, and the error variants):
        a pair of runs that differ is the replay;
  (iii) the model run with several `order` arguments (the explicit map-iteration order of the model) must agree
        with itself: a test of theorem C07_T2 on the extracted code.
+A fourth family, "auto-loaded": the module set plus a module atop that imports every module; some modules (all, the
+augmenting ones, a random subset) are only put on the search path (harness op D) and are read while imports and
+includes are resolved: the result must equal that of parsing every module explicitly, and the model's.
 Every clean implementation result must also have an empty `treeviol`, no entry with augments left (`naugments`) and
 (iv) every node each augment defines below its target exactly once, attributed to the augmenting module's namespace
 (an oracle on the implementation's dump alone); schemas built with an error variant (missing target, leaf target,
@@ -21,6 +24,8 @@ import json
 import os
 import random
 import re
+import shutil
+import tempfile
 
 import lib
 from props import schema_gen as sg
@@ -409,6 +414,31 @@ def applied_defects(schema, j):
     return bad
 
 
+def with_top(schema):
+    """the module set plus a module `atop` that imports every module: loading atop alone reaches all of them"""
+    top = mk("atop", "atop", imports=[("i%d" % i, m["name"]) for i, m in enumerate(schema) if m["belongs"] is None])
+    top["body"] = [leaf("toplf")]
+    return [top] + list(schema)
+
+
+def autoload_ops(schema, rnd, how):
+    """ops string that parses some modules explicitly (L) and only puts the others on the search path (D): they are read
+    while imports / includes are resolved.  schema[0] is atop and always parsed."""
+    idx = list(range(1, len(schema)))
+    if how == "all":
+        auto = set(idx)
+    elif how == "augmenters":
+        auto = {i for i in idx if schema[i]["augments"]} or set(idx)
+    else:
+        auto = {i for i in idx if rnd.random() < 0.5} or {rnd.choice(idx)}
+    # a submodule is found through its owner's include (or its own belongs-to is never followed): keep a parsed
+    # submodule's owner reachable -- it is, atop imports every module
+    loads = [i for i in range(len(schema)) if i not in auto]
+    rnd.shuffle(loads)
+    ops = ["D%d" % i for i in sorted(auto)] + ["L%d" % i for i in loads] + ["P"]
+    return ",".join(ops), sorted(schema[i]["name"] for i in auto)
+
+
 def orders_of(schema, rnd, n):
     names = [m["name"] for m in schema]
     outs = [list(names), list(reversed(names))]
@@ -513,6 +543,11 @@ def variants_of(schema, origin, rnd):
     return vs
 
 
+def autoload_replay_ops(schema, names):
+    return ",".join(["D%d" % i for i, m in enumerate(schema) if m["name"] in names] +
+                    ["L%d" % i for i, m in enumerate(schema) if m["name"] not in names] + ["P"])
+
+
 def model_orders(schema, rnd, n):
     names = sorted(m["name"] for m in schema if m["belongs"] is None) + sorted(m["name"] for m in schema if m["belongs"] is not None)
     outs = [None, list(reversed(names))]
@@ -537,7 +572,24 @@ def run(res, tier, seed, proof):
             for o in model_orders(sch, rnd, NML_ORDERS if vname == "written" else 1):
                 ml_lines.append(sg.model_case(sch, order=o))
                 idx.append(("ml", si, vname, o))
-    go_out = lib.run_go(go_lines)
+    # family "auto-loaded": the same modules, some of them only found on the search path during import resolution
+    auto_lines, auto_idx = [], []
+    for si, (schema, meta, origin) in enumerate(items):
+        sch = with_top(schema)
+        auto_lines.append(sg.go_case(sch))
+        auto_idx.append((si, "explicit", None))
+        for how in ("all", "augmenters", "random"):
+            ops, names = autoload_ops(sch, rnd, how)
+            auto_lines.append(sg.go_case(sch, ops=ops))
+            auto_idx.append((si, how, names))
+        ml_lines.append(sg.model_case(sch))
+        idx.append(("mlauto", si, "auto", None))
+    cwd = tempfile.mkdtemp(prefix="c07cwd")
+    try:
+        go_out = lib.run_go(go_lines, cwd=cwd)
+        auto_out = lib.run_go(auto_lines, cwd=cwd)
+    finally:
+        shutil.rmtree(cwd, ignore_errors=True)
     ml_out = lib.run_ml(ml_lines)
     per = {}
     gi = mi = 0
@@ -546,12 +598,17 @@ def run(res, tier, seed, proof):
         if kind == "go":
             d["go"].append((vname, o, go_out[gi]))
             gi += 1
+        elif kind == "mlauto":
+            d["mlauto"] = ml_out[mi]
+            mi += 1
         else:
             d["ml"].append((vname, o, ml_out[mi]))
             mi += 1
     hist = dict(by_kind={}, by_chain={}, by_error={}, by_origin={}, clean=0, error=0, go_runs=len(go_lines),
                 model_runs=len(ml_lines), model_order_dependent=0, impl_order_dependent=0, tie_mismatch=0,
-                error_variant_not_reported=0, clean_defects=0, crosses_implicit_case=0)
+                error_variant_not_reported=0, clean_defects=0, crosses_implicit_case=0,
+                autoload_runs=len(auto_lines), autoload_differs=0, autoload_tie_mismatch=0, autoloaded_modules=0,
+                autoloaded_augmenting_modules=0)
     reported = {}
 
     def report(sig, cls, what, rep):
@@ -655,10 +712,44 @@ def run(res, tier, seed, proof):
             hist["clean"] += 1
         elif all(st == "err" for vname, o, st, txt, j, line in gos):
             hist["error"] += 1
+    # auto-loaded family: same result as explicit loading, and as the model
+    byschema = {}
+    for (si, how, names), line in zip(auto_idx, auto_out):
+        byschema.setdefault(si, []).append((how, names, line))
+    for si, runs in byschema.items():
+        schema, meta, origin = items[si]
+        sch = with_top(schema)
+        base = dict(kind="c07", schema=sch, meta=meta, origin=origin)
+        ref = next(x for x in runs if x[0] == "explicit")
+        rst, rtxt, rj = sg.canon_go(ref[2])
+        if rst not in ("ok", "err"):
+            report(None, "impl-crash", "implementation neither resolved nor reported: %s" % ref[2][:200],
+                   dict(base, what_kind="impl-crash"))
+            continue
+        for how, names, line in runs:
+            if how == "explicit":
+                continue
+            st, txt, j = sg.canon_go(line)
+            hist["autoloaded_modules"] += len(names)
+            hist["autoloaded_augmenting_modules"] += sum(1 for m in sch if m["name"] in names and m["augments"])
+            if summarize(st, txt) != summarize(rst, rtxt):
+                hist["autoload_differs"] += 1
+                report(None, "autoload", "auto-loading: with %s only found on the search path the implementation gives %s %s, "
+                       "parsing every module explicitly gives %s %s"
+                       % (names, st, ((j or {}).get("runs") or [{}])[-1].get("errors", line[:80])[:2] if st != "ok" else "",
+                          rst, (rj["runs"][-1]["errors"][:2] if rst == "err" else "")),
+                       dict(base, what_kind="autoload", auto=names, ops=autoload_replay_ops(sch, names)))
+                break
+        m = per[si].get("mlauto", "")
+        mst = m if m.startswith("ok ") else m.split(" ")[0]
+        if mst != summarize(rst, rtxt):
+            hist["autoload_tie_mismatch"] += 1
+            report(None, "tie", "tie (module set with the importing module atop): impl=%s model=%s" % (rst, m.split(" ")[0]),
+                   dict(base, what_kind="tie", variant="atop", impl=(rtxt or rst), model=m[:2000]))
     nontrivial = sum(1 for s_, m_, o_ in items if sum(len(x["augments"]) for x in s_) >= 2)
     s0 = items[0][0]
     cov = dict(
-        evaluations=len(go_lines) + len(ml_lines), distinct_nontrivial=nontrivial, schemas=len(items),
+        evaluations=len(go_lines) + len(auto_lines) + len(ml_lines), distinct_nontrivial=nontrivial, schemas=len(items),
         rule="every schema in three variants (as written; augment statements permuted inside each module; augmenting modules "
              "renamed, which permutes Process's sorted visiting order), each loaded in %d orders on the implementation and run on "
              "the model at the implementation's visiting order, plus %d further order arguments on the model; compared: canonical "
@@ -700,6 +791,16 @@ def replay(rep, res):
         print("model (%s): %s" % (label, {k: v[:3] for k, v in mouts.items()}))
         outs |= set(mouts)
     kind = rep.get("what_kind")
+    if kind == "autoload":
+        cwd = tempfile.mkdtemp(prefix="c07cwd")
+        try:
+            a = sg.canon_go(lib.run_go([sg.go_case(rep["schema"])], cwd=cwd)[0])
+            b = sg.canon_go(lib.run_go([sg.go_case(rep["schema"], ops=rep["ops"])], cwd=cwd)[0])
+        finally:
+            shutil.rmtree(cwd, ignore_errors=True)
+        print("explicit   :", a[0], ((a[2] or {}).get("runs") or [{}])[-1].get("errors"))
+        print("auto-loaded:", b[0], ((b[2] or {}).get("runs") or [{}])[-1].get("errors"), "ops", rep["ops"])
+        return 0 if summarize(a[0], a[1]) == summarize(b[0], b[1]) else 1
     if kind == "not-reported":
         return 0 if outs == {"err"} else 1
     if kind == "valid-rejected":
